@@ -18,4 +18,8 @@ func Register(m map[string]func(*Ctx)) {
 	m["C08"] = RunC08
 	m["C10"] = RunC10
 	m["C16"] = RunC16
+	m["C18"] = RunC18
+	m["C19"] = RunC19
+	m["C15"] = RunC15
+	m["C18child"] = RunC18Child
 }
